@@ -111,7 +111,7 @@ CFG = [
 TREES = [[0], [1], [5, 0], [8, 8], [17, 3, 40], [0, 0], [4, 9, 0, 33], [64]]
 
 
-def replicat_writes_ref_reads(cfg_i, tree_i, chunking_i, conc):
+def replicat_writes_ref_reads(cfg_i, tree_i, chunking_i, conc, overlap=False):
     cfg = CFG[cfg_i]
     rt.determinism(29)
     with world.scratch('c14') as d:
@@ -129,7 +129,10 @@ def replicat_writes_ref_reads(cfg_i, tree_i, chunking_i, conc):
         settings = rt.fast_settings(cfg['encrypted'], cipher=cfg.get('cipher'), hashing=cfg.get('hashing'), chunking={'min_length': mn, 'max_length': mx})
         with rt.silence():
             init = rt.MiniLoop().run_until_complete(repo.init(password=b'pw', settings=settings))
-        snap = rt.MiniLoop().run_until_complete(repo.snapshot(paths=[src], note='nøte'))
+        paths = [src]
+        if overlap:        # overlapping arguments: the directory, a sub-directory of it, and a file inside
+            paths = [src, src / 'sub', sorted(src.glob('*.bin'))[0]]
+        snap = rt.MiniLoop().run_until_complete(repo.snapshot(paths=paths, note='nøte'))
         key_json = repo.serialize(init.key) if init.key is not None else None
         try:
             ref = RF.Repo(be.objs['config'], key_json, b'pw')
@@ -196,7 +199,7 @@ def e_write(k: int) -> bool:
     """
     ci, ti, chi, conci = digits(k, [6, 8, 3, 2])
     with NoTracing():
-        ok, msg = replicat_writes_ref_reads(ci, ti, chi, [1, 3][conci])
+        ok, msg = replicat_writes_ref_reads(ci, ti, chi, [1, 3][conci], overlap=(ci + ti + chi) % 2 == 1)
         tick('e_write', [ci, ti, chi, conci])
         if not ok:
             _say(ci, TREES[ti], chi, conci, msg)
